@@ -161,6 +161,43 @@ def check(ctx):
                 if isinstance(t, ast.Attribute) and isinstance(t.value, ast.Name) and t.value.id in holders:
                     ctx.oblige("R-C17.3", f"store on the inner node: {S.unparse(n)}", False)
                     ctx.violation("R-C17.3", f"paren-mark:{t.attr}", f"`{S.unparse(n)}` marks the node of a parenthesised expression: redundant parentheses change the AST", file=px.rel, function="CParser._parse_primary_expression", line=n.lineno)
+    # grouping is recognised in one place: inside the expression productions, _parse_expression is entered only after '(' in the primary
+    # expression, after '[' (subscripts) and after '?' - any other entry is a second bracketing rule that redundant parentheses can trip over
+    from .. import e1
+    from . import wiring_common as WCm
+    ex_, _g = e1.get()
+    ENTRY_OK = {("_parse_primary_expression", "LPAREN"), ("_parse_postfix_expression", "LBRACKET"), ("_parse_offsetof_member_designator", "LBRACKET"), ("_parse_conditional_expression", "CONDOP"),
+                ("_parse_expression_opt", "<entry>")}
+    entries = set()
+    for key, prod in ex_.prods.items():
+        if key[0] not in WCm.EXPR:
+            continue
+        out = prod.out()
+        seen_, todo = set(), [(prod.start, "<entry>")]
+        while todo:
+            node, last = todo.pop()
+            if (node, last) in seen_:
+                continue
+            seen_.add((node, last))
+            for e in out.get(node, []):
+                cur = last
+                for ev in e.events:
+                    if ev[0] == "consume":
+                        cur = "|".join(sorted(ev[1]))
+                    elif ev[0] == "call":
+                        if ev[1] == "_parse_expression":
+                            entries.add((key[0], cur, ev[4]))
+                        cur = "<after " + ev[1] + ">"
+                todo.append((e.dst, cur))
+    if len({(m_, l_) for m_, l_, _ in entries}) < 4:
+        raise AnalysisError(f"only {len(entries)} entries into _parse_expression found in the expression productions (confirmed by reading: 5)")
+    for m_, last, line in sorted(entries):
+        ok = (m_, last) in ENTRY_OK
+        ctx.oblige("R-C17.3", f"{m_}: expression entered after {last}", ok, sample={"rule": "R-C17.3", "production": m_, "token consumed just before _parse_expression": last, "verdict": "reviewed entry" if ok else "SECOND GROUPING RULE"})
+        if not ok:
+            ctx.violation("R-C17.3", f"expression-entry:{m_}:{last}", f"{m_} (line {line}) enters _parse_expression after consuming {last}: besides the parenthesised primary expression this is a second rule that consumes `( expression )` "
+                          "(or another bracketing), so an operand wrapped in redundant parentheses is parsed by a different production than the bare operand (e.g. `sizeof (a)[0]` vs `sizeof a[0]`)",
+                          file=px.rel, function=f"CParser.{m_}", line=line)
     t_ = S.tables()
     sp_of = {tt: lit for tt, lit in t_.fixed_tokens}
     c02.check_table(ctx, t_.binary_precedence, lambda k: sp_of.get(k), "R-C17.5", (px.rel, "_BINARY_PRECEDENCE"), "parser precedence table")
